@@ -183,6 +183,11 @@ struct Result
     QStringList full;
     int budget = 0;
     int keepPrefix = 0, keepSuffixFrom = 0; // in `full` coordinates
+    // per code unit of full[0]: may this unit be removed? Literal units may (inside the window); units of a VALUE may
+    // only when a later omitted attribute with remove-before > 0 can reach them ("chop N chars before" acts on the output
+    // so far, whatever it is) - the remove-after count only ever applies to literal text (property anchor: "tell the
+    // next literal to drop M chars"), so no value unit after an omitted attribute may disappear.
+    QVector<char> fullMask;
     bool opaque = false;      // contains one %{time process}: exact = prefix + <number> + suffix
     QString opaquePrefix, opaqueSuffix;
     bool tokenless = false;   // no token at all: message or empty are both accepted
@@ -399,6 +404,25 @@ inline Result evaluate(const QString &pattern, const Message &m)
             if (pc.missingOptional) { if (firstPos < 0) firstPos = off; lastPos = off; sumN += pc.removeBefore; sumM += pc.removeAfter; continue; }
             off += pc.values[0].size(); // candidates of one piece have different lengths only for %{time}; handled by the caller per candidate
         }
+        {
+            // removable mask over full[0]
+            int o2 = 0;
+            std::vector<std::pair<int, int>> chopRanges; // [from, to) in full coordinates
+            for (auto &pc : pieces) {
+                if (pc.missingOptional) { if (pc.removeBefore > 0) chopRanges.push_back({ qMax(0, o2 - r.budget), o2 }); continue; }
+                o2 += pc.values[0].size();
+            }
+            o2 = 0;
+            for (auto &pc : pieces) {
+                if (pc.missingOptional) continue;
+                for (int k = 0; k < pc.values[0].size(); k++, o2++) {
+                    bool removable = pc.literal;
+                    if (!removable)
+                        for (auto &cr : chopRanges) if (o2 >= cr.first && o2 < cr.second) removable = true;
+                    r.fullMask.append(removable ? 1 : 0);
+                }
+            }
+        }
         r.keepPrefix = firstPos < 0 ? off : qMax(0, firstPos - sumN);
         r.keepSuffixFrom = lastPos < 0 ? 0 : lastPos + sumM;
         for (auto &pc : pieces) if (pc.values.size() > 1 && !pc.missingOptional) { r.grade = Skip; r.note = "time candidates in a bounded case"; return r; }
@@ -422,6 +446,31 @@ inline bool boundedMatch(const QString &a, const QString &full, int budget, int 
     for (int i = 0; i < fm.size() && j < am.size(); i++)
         if (fm[i] == am[j]) j++;
     return j == am.size();
+}
+
+// as boundedMatch, and additionally only units with mask != 0 may be deleted (mask parallels `full`)
+inline bool boundedMatchMasked(const QString &a, const QString &full, const QVector<char> &mask, int budget, int keepPrefix, int keepSuffixFrom)
+{
+    if (mask.size() != full.size()) return boundedMatch(a, full, budget, keepPrefix, keepSuffixFrom);
+    if (!boundedMatch(a, full, budget, keepPrefix, keepSuffixFrom)) return false;
+    keepPrefix = qMin(keepPrefix, full.size());
+    keepSuffixFrom = qMin(qMax(keepSuffixFrom, keepPrefix), full.size());
+    const int n = full.size(), m = a.size();
+    const int INF = 1 << 29;
+    // dp[j] = minimal deletions so that full[0..i) yields a[0..j)
+    std::vector<int> dp(m + 1, INF), nx(m + 1, INF);
+    dp[0] = 0;
+    for (int i = 0; i < n; i++) {
+        std::fill(nx.begin(), nx.end(), INF);
+        const bool removable = mask[i] && i >= keepPrefix && i < keepSuffixFrom;
+        for (int j = 0; j <= m; j++) {
+            if (dp[j] >= INF) continue;
+            if (j < m && full[i] == a[j]) nx[j + 1] = qMin(nx[j + 1], dp[j]);
+            if (removable && dp[j] + 1 <= budget) nx[j] = qMin(nx[j], dp[j] + 1);
+        }
+        dp.swap(nx);
+    }
+    return dp[m] <= budget;
 }
 
 } // namespace refpattern
